@@ -296,6 +296,27 @@ const smallYAML = `types:
     - name: dd
       type:
         scalar: string
+    - name: ll
+      type:
+        list:
+          elementType:
+            scalar: string
+          elementRelationship: associative
+    - name: nn
+      type:
+        namedType: st2
+- name: st2
+  map:
+    fields:
+    - name: ee
+      type:
+        scalar: numeric
+    - name: ff
+      type:
+        list:
+          elementType:
+            scalar: string
+          elementRelationship: associative
 - name: item
   map:
     fields:
